@@ -676,7 +676,7 @@ func genHist(t *Tracer, m *Meta, prop, tier string, seed int64, histFile string)
 	}
 	budget := 1000
 	if tier != "quick" {
-		budget = 3000
+		budget = 30000 // all 29 791 histories of depth 3
 	}
 	m.Extra["histories_from_spec"] = len(hists)
 	if len(hists) > budget {
